@@ -109,7 +109,7 @@ func (g *gen) setup() {
 	parLife := []int64{300 * sec, 45 * sec}[r.Intn(2)]
 	g.op(fmt.Sprintf("cfg\trefreshScopes=%s\tscope=%s\taud=%s\tcodeLife=%d\tatLife=%d\trtLife=%d\tpkce=%s\tpkcePublic=%s\tplain=%s\tnoRtIntrospect=%s\tdeviceLife=%d\tparLife=%d\tenforcePAR=%s\tdevMark=%s",
 		encListS(refreshScopes), scopeStrat, audStrat, codeLife, atLife, rtLife, g.cfg["pkce"], g.cfg["pkcePublic"], g.cfg["plain"], b01(r.Intn(5) == 0),
-		deviceLife, parLife, b01(r.Intn(12) == 0), b01(r.Intn(2) == 0)))
+		deviceLife, parLife, b01(r.Intn(12) == 0 && g.bias != "C16"), b01(r.Intn(2) == 0 || (g.bias == "C16" && r.Intn(3) != 0))))
 	allScopes := []string{"offline", "openid", "a", "b.c", "rt", "offline_access"}
 	if scopeStrat == "wildcard" {
 		allScopes = append(allScopes, "b.*")
@@ -131,7 +131,7 @@ func (g *gen) setup() {
 		if r.Intn(10) < 5 {
 			c.grants = append(c.grants, "password")
 		}
-		if r.Intn(10) < 6 {
+		if r.Intn(10) < 6 || g.bias == "C16" {
 			c.grants = append(c.grants, "urn:ietf:params:oauth:grant-type:device_code")
 		}
 		c.scopes = pickN(r, allScopes, 85)
@@ -506,7 +506,7 @@ func (g *gen) deviceStep() {
 	}
 	d := g.devices[r.Intn(len(g.devices))]
 	switch x := r.Intn(10); {
-	case x < 3 && !d.decided:
+	case x < 5 && !d.decided:
 		verdict := []string{"accept", "accept", "accept", "reject"}[r.Intn(4)]
 		gs := pickN(r, d.scopes, 90)
 		g.op(fmt.Sprintf("deviceDecide\t%s\t%s\t%s\t%s\t%s", d.name, verdict, encListS(gs), "", []string{"alice", "bob"}[r.Intn(2)]))
@@ -603,6 +603,12 @@ func (g *gen) History(n int) {
 			}
 		}
 		x := r.Intn(118)
+		if g.bias == "C16" && r.Intn(3) == 0 {
+			x = 106 // device flows dominate
+		}
+		if g.bias == "C17" && r.Intn(3) == 0 {
+			x = 112 // PAR flows dominate
+		}
 		switch {
 		case x >= 100 && x < 106:
 			g.direct()
